@@ -98,7 +98,7 @@ func engBaseDoc(src []string) *document.Document {
 	for _, l := range src {
 		d.AddParagraph(l)
 	}
-	_ = d.AddHeader(document.HeaderFooterTypeDefault, "HDR {{v}}")
+	_ = d.AddHeader(document.HeaderFooterTypeDefault, "HDR {{v}}{{#if c}} ON{{/if}}")
 	// a table after the paragraphs (the projection of a render reads top-level paragraphs only, so the
 	// reference result is unaffected): placeholders in one run, split between runs exactly between the
 	// opening braces and inside the name, a static row, and a nested table. The deep before/after
